@@ -98,6 +98,11 @@ func (e *Endpoint) Listen(ctx context.Context, network, address string) (net.Lis
 		return nil, err
 	}
 	port, _ := strconv.Atoi(portStr)
+	if ip := net.ParseIP(host); host == "" || (ip != nil && ip.IsUnspecified()) {
+		// a wildcard listener is reachable at the endpoint's own address
+		host = e.IP.String()
+		address = net.JoinHostPort(host, portStr)
+	}
 	n := e.N
 	n.mu.Lock()
 	defer n.mu.Unlock()
@@ -137,6 +142,10 @@ func (d PacketListener) ListenPacket(ctx context.Context, network, address strin
 		return nil, err
 	}
 	port, _ := strconv.Atoi(portStr)
+	if ip := net.ParseIP(host); host == "" || (ip != nil && ip.IsUnspecified()) {
+		host = d.E.IP.String()
+		address = net.JoinHostPort(host, portStr)
+	}
 	n := d.E.N
 	n.mu.Lock()
 	defer n.mu.Unlock()
